@@ -207,6 +207,17 @@ func (fr *Frame) modContract(fc *FuncContract, c *ssa.CallCommon, ms *modSet, bi
 	for _, a := range fc.Assigns {
 		switch e := a.Expr.(type) {
 		case *ast.SelectorExpr:
+			// pkg.Var: a global
+			if id, ok := e.X.(*ast.Ident); ok && fc.Scope != nil {
+				if _, isParam := paramIdx[id.Name]; !isParam {
+					if pkg := fc.Scope.Aliases[id.Name]; pkg != nil {
+						if v, ok := pkg.Scope().Lookup(e.Sel.Name).(*types.Var); ok {
+							ms.whole("G." + v.Pkg().Path() + "." + v.Name())
+							continue
+						}
+					}
+				}
+			}
 			// p.f with p a parameter: pointwise; otherwise whole array
 			if id, ok := e.X.(*ast.Ident); ok {
 				if i, ok := paramIdx[id.Name]; ok && i < len(args) {
@@ -255,6 +266,17 @@ func (fr *Frame) modContract(fc *FuncContract, c *ssa.CallCommon, ms *modSet, bi
 			}
 			ms.all = true
 		case *ast.CallExpr:
+			if id, ok := e.Fun.(*ast.Ident); ok && len(e.Args) == 1 && id.Name == "all" {
+				if sel, ok := e.Args[0].(*ast.SelectorExpr); ok {
+					if t, err := resolveTypeExpr(sel.X, fc.Scope, w.P); err == nil {
+						s := w.structSort(t)
+						if j := s.fieldIndex(sel.Sel.Name); j >= 0 {
+							ms.whole(heapFieldName(s, j))
+							continue
+						}
+					}
+				}
+			}
 			// elems(x), contents(x), boxes(T)
 			if id, ok := e.Fun.(*ast.Ident); ok && len(e.Args) == 1 && id.Name == "boxes" {
 				if t, err := resolveTypeExpr(e.Args[0], fc.Scope, w.P); err == nil {
